@@ -16,6 +16,8 @@ structure Spec where
   log : List Callback := []
   /-- (index, event type) of the delivered events, in delivery order -/
   delivered : List (Nat × String) := []
+  /-- how many of them were delivered in earlier documents parsed by the same parser -/
+  base : Nat := 0
 
 /-- Callbacks for one event: the expected handlers in order, or the overridden `_parsed_event`
 when there is none. A function of the registry, the event's type and source — nothing else. -/
@@ -59,7 +61,7 @@ def isOntologyCallback : Callback → Bool
 structure Sim (reg : Registry) (s : PState) (t : Spec) : Prop where
   ont : s.ont = t.ont
   log : s.log = t.log
-  nEvents : s.nEvents = t.delivered.length
+  nEvents : s.nEvents + t.base = t.delivered.length
   counts : ∀ ty, lookupD ty 0 s.typeCount = countType ty t.delivered
   patMap : ∀ ts ss, s.ont = some (ts, ss) → s.patMap = buildPatMap reg ss
 
@@ -224,7 +226,9 @@ theorem step_sim (reg : Registry) (s s' : PState) (t t' : Spec) (it : Item) (e e
               intro ch
               refine ⟨rfl, ?_, ?_, ?_, ?_⟩
               · simp only; rw [hpm, dispatch_eq reg ss idx type source hsrc, hR.log]
-              · simp only [List.length_append, List.length_singleton]; rw [hR.nEvents]
+              · simp only [List.length_append, List.length_singleton]
+                have := hR.nEvents
+                omega
               · intro ty
                 simp only
                 rw [lookupD_increment, hR.counts ty]
@@ -250,7 +254,7 @@ when parsing fails on an ontology element, by repeated ontology callbacks; and t
 the number of delivered events (`counters_eq_delivered`). -/
 theorem dispatch_exact (reg : Registry) : ∀ (items : List Item) (s s' : PState) (t t' : Spec)
     (e e' : Option PErr), Sim reg s t → prun reg s items = (s', e) → specRun reg t items = (t', e') →
-    e = e' ∧ s'.nEvents = t'.delivered.length ∧
+    e = e' ∧ s'.nEvents + t'.base = t'.delivered.length ∧
     (∀ ty, lookupD ty 0 s'.typeCount = countType ty t'.delivered) ∧
     ∃ extra, s'.log = t'.log ++ extra ∧ (e = none → extra = []) ∧
       ∀ c ∈ extra, isOntologyCallback c = true
@@ -284,15 +288,44 @@ theorem dispatch_exact (reg : Registry) : ∀ (items : List Item) (s s' : PState
           obtain ⟨rfl, rfl⟩ := ht
           obtain ⟨rfl, es⟩ := st.2.2 (by simp)
           obtain ⟨extra, hx, hxo⟩ := es.log
-          refine ⟨rfl, by rw [es.nEvents, hR.nEvents], fun ty => by rw [es.counts ty, hR.counts ty],
+          refine ⟨rfl, by rw [es.nEvents]; exact hR.nEvents, fun ty => by rw [es.counts ty, hR.counts ty],
             extra, by rw [hx, hR.log], fun h => (by cases h), hxo⟩
+
+theorem specStep_base (reg : Registry) (t : Spec) (it : Item) : (specStep reg t it).1.base = t.base := by
+  cases it with
+  | foreign idx => rfl
+  | ont v types sources => cases v <;> rfl
+  | event idx type source g =>
+    simp only [specStep]
+    cases t.ont with
+    | none => rfl
+    | some o =>
+      simp only
+      split
+      · rfl
+      · split
+        · rfl
+        · split <;> rfl
+
+theorem specRun_base (reg : Registry) : ∀ (items : List Item) (t : Spec), (specRun reg t items).1.base = t.base
+  | [], _ => rfl
+  | it :: rest, t => by
+    simp only [specRun]
+    have h := specStep_base reg t it
+    cases hst : specStep reg t it with
+    | mk t1 e1 =>
+      rw [hst] at h
+      cases e1 with
+      | none => simp only; rw [specRun_base reg rest t1]; exact h
+      | some err => exact h
 
 /-- Counters equal the number of delivered events, in total and per event type. -/
 theorem counters_eq_delivered (reg : Registry) (items : List Item) :
     (prun reg {} items).1.nEvents = (specRun reg {} items).1.delivered.length ∧
     ∀ ty, lookupD ty 0 (prun reg {} items).1.typeCount = countType ty (specRun reg {} items).1.delivered := by
   have := dispatch_exact reg items {} _ {} _ _ _ (sim_init reg) rfl rfl
-  exact ⟨this.2.1, this.2.2.1⟩
+  have hb : (specRun reg {} items).1.base = 0 := specRun_base reg items {}
+  exact ⟨by have := this.2.1; omega, this.2.2.1⟩
 
 /-- The callbacks for an event do not depend on the events parsed before it: whatever the state of
 the specification, an accepted event appends exactly `specDispatch reg idx type source`. -/
@@ -470,5 +503,71 @@ theorem specRun_inv (reg : Registry) : ∀ (items : List Item) (t t' : Spec) (e 
 
 example : (specRun C06.exReg {} C06.exDoc).1.log = (prun C06.exReg {} C06.exDoc).1.log := by decide +kernel
 example : (specRun C06.exReg {} C06.exDoc).1.delivered = [(1, "ta"), (3, "ta")] := by decide +kernel
+
+/-! ### one parser, several documents
+
+`parse()` may be called again on the same parser: `_init()` forgets the tree, the event counter and
+that an ontology element was seen; the ontology, the per-type counters, the registered handlers and
+the source pattern map stay. -/
+
+/-- the specification between two documents: nothing is forgotten but the count of events of the
+document -/
+def Spec.nextDoc (t : Spec) : Spec := { t with base := t.delivered.length }
+
+theorem nextDoc_sim (reg : Registry) (s : PState) (t : Spec) (h : Sim reg s t) : Sim reg s.nextDoc t.nextDoc :=
+  ⟨h.ont, h.log, by simp [PState.nextDoc, Spec.nextDoc], h.counts, h.patMap⟩
+
+/-- C14 for a reused parser: whatever was parsed before, the next document is dispatched by the same
+rule — event by event the type handlers, then the handlers of every pattern matching the source,
+with the sources of *all* documents so far — the event counter counts the events of this document,
+the per-type counters those of all documents -/
+theorem reuse_dispatch_exact (reg : Registry) (doc1 doc2 : List Item) (s1 s2 : PState) (e1 e2 : Option PErr)
+    (h1 : prun reg {} doc1 = (s1, e1)) (hok : e1 = none) (h2 : prun reg s1.nextDoc doc2 = (s2, e2)) :
+    let t1 := (specRun reg {} doc1).1
+    let r2 := specRun reg t1.nextDoc doc2
+    e2 = r2.2 ∧ s2.nEvents + t1.delivered.length = r2.1.delivered.length ∧
+    (∀ ty, lookupD ty 0 s2.typeCount = countType ty r2.1.delivered) ∧
+    ∃ extra, s2.log = r2.1.log ++ extra ∧ (e2 = none → extra = []) ∧ ∀ c ∈ extra, isOntologyCallback c = true := by
+  intro t1 r2
+  -- the first document ends in a state that simulates the specification
+  have sim1 : Sim reg s1 t1 := by
+    have key : ∀ (items : List Item) (s s' : PState) (t : Spec) (e : Option PErr), Sim reg s t →
+        prun reg s items = (s', e) → e = none → Sim reg s' (specRun reg t items).1 := by
+      intro items
+      induction items with
+      | nil =>
+        intro s s' t e hR hs _
+        simp only [prun, Prod.mk.injEq] at hs
+        obtain ⟨rfl, rfl⟩ := hs
+        exact hR
+      | cons it rest ih =>
+        intro s s' t e hR hs he
+        simp only [prun] at hs
+        simp only [specRun]
+        cases hp : pstep reg s it with
+        | mk sa ea =>
+          cases hq : specStep reg t it with
+          | mk ta eb =>
+            rw [hp] at hs
+            have st := step_sim reg s sa t ta it ea eb hR hp hq
+            cases ea with
+            | none =>
+              have : eb = none := st.1.symm
+              subst this
+              simp only at hs ⊢
+              exact ih sa s' ta e (st.2.1 rfl) hs he
+            | some err =>
+              simp only [Prod.mk.injEq] at hs
+              rw [← hs.2] at he
+              cases he
+    exact key doc1 {} s1 {} e1 (sim_init reg) h1 hok
+  have hb : r2.1.base = t1.delivered.length := by
+    show (specRun reg t1.nextDoc doc2).1.base = _
+    rw [specRun_base]; rfl
+  have := dispatch_exact reg doc2 s1.nextDoc s2 t1.nextDoc r2.1 e2 r2.2 (nextDoc_sim reg s1 t1 sim1) h2 rfl
+  refine ⟨this.1, ?_, this.2.2.1, this.2.2.2⟩
+  have h := this.2.1
+  rw [hb] at h
+  exact h
 
 end EdxmlProps.C14
